@@ -4,6 +4,7 @@ Lemmas for C37: strict monotonicity of the interpolant up to the last break, the
 `rescale_tree_sequence`.
 -/
 import TsdateVerif.Proofs.Rescale
+import TsdateVerif.Proofs.Merge
 
 namespace Tsdate.Rescale
 set_option linter.unusedSectionVars false
@@ -95,11 +96,11 @@ theorem zero_mem_fixedChangepoints (cast : Nat → α) (mass : List α) (m : Nat
 theorem prefixFrom_head (acc : α) (xs : List α) : lget (Changepoints.prefixFrom acc xs) 0 = acc := by
   cases xs <;> simp [Changepoints.prefixFrom, lget]
 
-/-- whatever `mutational_timescale` returns starts at original time 0 and rescaled time 0 -/
-theorem timescale_zero (cast : Nat → α) (t : List α) (lik : List (α × α)) (edges : List Edge) (m : Nat)
-    (ob rb : List α) (h : mutationalTimescale cast t lik edges m = some (ob, rb)) :
+/-- the raw breakpoints (before merging) start at original time 0 and rescaled time 0 -/
+theorem timescaleRaw_zero (cast : Nat → α) (t : List α) (lik : List (α × α)) (edges : List Edge) (m : Nat)
+    (ob rb : List α) (h : mutationalTimescaleRaw cast t lik edges m = some (ob, rb)) :
     ob ≠ [] ∧ lget ob 0 = 0 ∧ lget rb 0 = 0 := by
-  unfold mutationalTimescale at h
+  unfold mutationalTimescaleRaw at h
   simp only at h
   split_ifs at h with hg
   simp only [Option.map_eq_some_iff, Prod.mk.injEq] at h
@@ -120,6 +121,24 @@ theorem timescale_zero (cast : Nat → α) (t : List α) (lik : List (α × α))
     simp only [List.map_cons, lget, List.getElem?_cons_zero, Option.getD_some]
     exact prefixFrom_head 0 _
   · rw [← h2]; simp [cumsum, lget]
+
+/-- whatever `mutational_timescale` returns (after merging) starts at original time 0 and rescaled time 0 -/
+theorem timescale_zero (cast : Nat → α) (t : List α) (lik : List (α × α)) (edges : List Edge) (m : Nat)
+    (ob rb : List α) (h : mutationalTimescale cast t lik edges m = some (ob, rb)) :
+    ob ≠ [] ∧ lget ob 0 = 0 ∧ lget rb 0 = 0 := by
+  unfold mutationalTimescale at h
+  simp only [Option.map_eq_some_iff] at h
+  obtain ⟨⟨origin, adjust⟩, hraw, hm⟩ := h
+  obtain ⟨_, ho, ha⟩ := timescaleRaw_zero cast t lik edges m origin adjust hraw
+  obtain ⟨g1, g2, g3⟩ := merge_heads origin adjust
+  simp only at hm
+  have e1 : ob = (mergeBreaks origin adjust).1 := by rw [hm]
+  have e2 : rb = (mergeBreaks origin adjust).2 := by rw [hm]
+  rw [e1, e2]
+  refine ⟨g1, by rw [g2, ho], ?_⟩
+  rcases g3 with g | g
+  · rw [g, ha]
+  · rw [g, ho]
 
 /-! ### one step and the loop -/
 
